@@ -8,8 +8,22 @@ import FV.Proofs.StropStog
   Grids are `List (List Bool)`; `cell m i j` is `m[i][j]`; `m.wf` are the constructor's assertions
   (at least one row, rows of equal non-zero length).
 
-  Not proved (tied by the correspondence run and the shoelace check of the harness): that the even–odd
-  point-in-polygon test marks exactly the cells inside an arbitrary simple orthogonal vertex list.
+  Polygons given by their vertices (section `polygon`): `is_point_inside_polygon` is the parity of its crossing edges
+  (`pip_parity`), for an axis-parallel loop the parity of the vertical edges strictly to the right (`pip_closed_form`),
+  independent of start vertex and orientation (`pip_start_vertex_indep`, `pip_orientation_indep`,
+  `matrix_start_orientation_indep`); for a vertex list that walks the boundary of the 1-cells of a grid `S`
+  (`tracesGrid`, an executable edge-by-edge condition the harness evaluates on every traced polygon) the matrix handed to
+  `Strop` is `S` (`matrix_of_traced_polygon`), rectangles are returned iff `S` has a single-trunk decomposition
+  (`traced_polygon_decomposes_iff`) and their total area is the shoelace area (`traced_polygon_area`,
+  `shoelace_of_traced_polygon`).  `tracesGrid` is proved for all axis-parallel rectangles (`rectangle_traces`,
+  `rectangle_decomposition`) and for all histogram / staircase polygons (`histogram_traces`, `histogram_matrix`), and is
+  closed under change of start vertex and orientation (`traces_start_orientation`).
+
+  NOT YET PROVED: that the vertex list produced by *tracing* the boundary of an arbitrary simply connected cell set
+  satisfies `tracesGrid` (a statement about the tracer, which is harness code, not FRAME code; evaluated at run time by
+  the driver for every generated polygon), and `tracesGrid` for the general single-trunk outline assembled from trunk +
+  branch histograms (rectangles and one-sided histograms are proved as classes; a histogram is the single-trunk
+  orthogon whose trunk is its lowest full-width row band with north branches only when that band exists).
 -/
 namespace FV.C15
 open FV FV.Strop
@@ -285,6 +299,134 @@ theorem decomposition_recognised (zero : α) (vs : List (α × α)) (cands : Lis
 
 end recognised
 
+/-! ### polygons given by their vertices: `is_point_inside_polygon` and the matrix `strop_decomposition` builds -/
+
+section polygon
+variable {α : Type} [Field α] [LinearOrder α] [IsStrictOrderedRing α]
+
+/-- **pip_parity** — `is_point_inside_polygon` is the parity of the number of cyclic edges `p1 → p2` that satisfy its
+crossing test (`crossN` counts the edges with `p1.y ≤ y < p2.y or p2.y ≤ y < p1.y` and `x < intersect_x`), for every
+vertex list. -/
+theorem pip_parity (px py : α) (vs : List (α × α)) : isPointInside px py vs = decide (Odd (crossN px py vs)) :=
+  isPointInside_eq px py vs
+
+/-- **pip_closed_form** — for an axis-parallel loop the answer is the parity of the number of vertical edges strictly
+to the right of the point whose half-open `y`-range contains the point's ordinate (`rightCount`); in particular no
+division is involved and horizontal edges never count. -/
+theorem pip_closed_form (px py : α) (vs : List (α × α)) (hr : rectilinear vs = true) :
+    isPointInside px py vs = decide (Odd (rightCount px py vs)) := by
+  rw [isPointInside_eq, crossN_rect px py vs hr]
+
+/-- **pip_start_vertex_indep** — the answer does not depend on the vertex the list starts with (any vertex list). -/
+theorem pip_start_vertex_indep (px py : α) (vs : List (α × α)) (k : ℕ) :
+    isPointInside px py (vs.rotate k) = isPointInside px py vs := isPointInside_rotate px py vs k
+
+/-- **pip_orientation_indep** — … nor on the orientation (any vertex list; exact arithmetic: the two evaluations of
+`intersect_x` agree as field elements). -/
+theorem pip_orientation_indep (px py : α) (vs : List (α × α)) :
+    isPointInside px py vs.reverse = isPointInside px py vs := isPointInside_reverse px py vs
+
+/-- **matrix_start_orientation_indep** — the coordinate lists and the 0/1 matrix handed to `Strop`, hence everything
+`strop_decomposition` can answer, are the same for every rotation of the vertex list and for the reversed list. -/
+theorem matrix_start_orientation_indep (zero : α) (vs : List (α × α)) (k : ℕ) :
+    gridOfVertices (vs.rotate k) = gridOfVertices vs ∧ gridOfVertices vs.reverse = gridOfVertices vs ∧
+    stropDecomposition zero (vs.rotate k) = stropDecomposition zero vs ∧
+    stropDecomposition zero vs.reverse = stropDecomposition zero vs :=
+  ⟨gridOfVertices_rotate vs k, gridOfVertices_reverse vs,
+    stropDecomposition_congr zero _ _ (gridOfVertices_rotate vs k),
+    stropDecomposition_congr zero _ _ (gridOfVertices_reverse vs)⟩
+
+/-- **matrix_of_traced_polygon** — `tracesGrid zero σ S vs` (executable; the harness evaluates it for every polygon it
+traces): every edge of `vs` is axis-parallel, `S` has one row per gap of the pipeline's `y_coords` and one column
+per gap of its `x_coords`, and on every grid line the vertical edges of `vs` cross a row exactly where the line
+separates a 1-cell of `S` from a 0-cell (signed count `σ·(S[i][k-1] − S[i][k])`; `σ = 1` counter-clockwise, `σ = −1`
+clockwise).  Then the matrix the pipeline computes from the cell centres with `is_point_inside_polygon` is `S`. -/
+theorem matrix_of_traced_polygon (zero : α) (σ : ℤ) (hσ : σ = 1 ∨ σ = -1) (S : Grid) (vs : List (α × α))
+    (h : tracesGrid zero σ S vs = true) : (gridOfVertices vs).2.2 = S :=
+  matrix_of_traced zero σ hσ S vs h
+
+/-- **traced_polygon_decomposes_iff** — with `isStrop_iff`: for a polygon that walks the boundary of the 1-cells of a
+well-formed grid `S`, `strop_decomposition` returns rectangles (instead of failing its assertion) exactly when `S` has a
+single-trunk decomposition. -/
+theorem traced_polygon_decomposes_iff (zero : α) (σ : ℤ) (hσ : σ = 1 ∨ σ = -1) (S : Grid) (hwf : S.wf = true)
+    (vs : List (α × α)) (h : tracesGrid zero σ S vs = true) :
+    (stropDecomposition zero vs).isSome = true ↔ ∃ T bs, Decomposes S T bs := by
+  rw [← isStrop_iff S hwf]
+  unfold stropDecomposition
+  simp only []
+  rw [matrix_of_traced zero σ hσ S vs h]
+  unfold strop isStrop
+  rw [if_pos hwf]
+  cases instances S <;> simp
+
+/-- **shoelace_of_traced_polygon** — discrete Green formula: the shoelace sum `Σ xᵢyᵢ₊₁ − xᵢ₊₁yᵢ` of such a vertex
+list is `2σ` times the area of the 1-cells of `S` (cell sizes from the pipeline's coordinate lists). -/
+theorem shoelace_of_traced_polygon (zero : α) (σ : ℤ) (S : Grid) (vs : List (α × α))
+    (h : tracesGrid zero σ S vs = true) :
+    shoelace2 0 vs = 2 * (σ : α) * gridArea S (fun j => (gridOfVertices vs).1.getD j zero)
+      (fun i => (gridOfVertices vs).2.1.getD i zero) :=
+  shoelace_of_traced zero σ S vs h
+
+/-- **traced_polygon_area** — "the resulting rectangles have the polygon's area": every answer `strop_decomposition`
+can give for such a vertex list has `Σ w·h` equal to the shoelace area `σ·(Σ xᵢyᵢ₊₁ − xᵢ₊₁yᵢ)/2` of the vertex list. -/
+theorem traced_polygon_area (zero : α) (σ : ℤ) (hσ : σ = 1 ∨ σ = -1) (S : Grid) (vs : List (α × α))
+    (h : tracesGrid zero σ S vs = true) (cands : List (List (α × α × α × α)))
+    (hc : stropDecomposition zero vs = some cands) (c : List (α × α × α × α)) (hcc : c ∈ cands) :
+    (c.map rectArea).sum = (σ : α) * shoelace2 0 vs / 2 := by
+  rw [decomposition_area zero vs cands hc c hcc, shoelace_of_traced zero σ S vs h,
+    matrix_of_traced zero σ hσ S vs h]
+  rcases hσ with rfl | rfl <;> (push_cast; ring)
+
+/-- **traces_start_orientation** — the hypothesis `tracesGrid` is itself independent of the start vertex, and reversing
+the list flips the orientation sign: one evaluation covers all `2n` presentations of the polygon. -/
+theorem traces_start_orientation (zero : α) (σ : ℤ) (S : Grid) (vs : List (α × α))
+    (h : tracesGrid zero σ S vs = true) (k : ℕ) :
+    tracesGrid zero σ S (vs.rotate k) = true ∧ tracesGrid zero (-σ) S (vs.reverse.rotate k) = true :=
+  ⟨tracesGrid_rotate zero σ S vs h k, tracesGrid_rotate zero (-σ) S _ (tracesGrid_reverse zero σ S vs h) k⟩
+
+/-- **rectangle_traces** — a class for which the hypothesis is proved, not only evaluated: every axis-parallel
+rectangle `[x0, x1] × [y0, y1]` (`rectLoop`: counter-clockwise from the lower-left corner) walks the boundary of the
+one-cell grid. -/
+theorem rectangle_traces (zero : α) (x0 x1 y0 y1 : α) (hx : x0 < x1) (hy : y0 < y1) :
+    tracesGrid zero 1 [[true]] (rectLoop x0 x1 y0 y1) = true := rectLoop_traces zero x0 x1 y0 y1 hx hy
+
+/-- **rectangle_decomposition** — hence, from every start vertex and in either orientation, `strop_decomposition`
+answers with exactly the rectangle itself, `[[cx, cy, w, h]]`. -/
+theorem rectangle_decomposition (zero : α) (x0 x1 y0 y1 : α) (hx : x0 < x1) (hy : y0 < y1) (k : ℕ) :
+    stropDecomposition zero ((rectLoop x0 x1 y0 y1).rotate k)
+      = some [[((x0 + x1) / two, (y0 + y1) / two, x1 - x0, y1 - y0)]] ∧
+    stropDecomposition zero ((rectLoop x0 x1 y0 y1).reverse.rotate k)
+      = some [[((x0 + x1) / two, (y0 + y1) / two, x1 - x0, y1 - y0)]] := by
+  have h := rectLoop_decomposition zero x0 x1 y0 y1 hx hy
+  refine ⟨by rw [(matrix_start_orientation_indep zero _ k).2.2.1, h], ?_⟩
+  rw [(matrix_start_orientation_indep zero _ k).2.2.1, (matrix_start_orientation_indep zero _ 0).2.2.2, h]
+
+/-- **histogram_traces** — a second, infinite class for which the hypothesis is proved: histogram (staircase)
+polygons.  Columns between the strictly increasing abscissae `x0 :: xr`, of arbitrary heights `hs` (equal neighbours
+allowed: the loop then has a repeated vertex) all above the base line `b`; `histLoop` walks base-left corner, up, along
+the tops to the right, down to the base-right corner (clockwise, `σ = −1`).  It walks the boundary of `histGrid`: cell
+`(i, j)` is inside iff column `j` reaches the top of row `i` of the pipeline's own ordinates.  By
+`traces_start_orientation` the same holds from every start vertex and, with `σ = 1`, for the reversed loop. -/
+theorem histogram_traces (zero : α) (x0 b : α) (xr hs : List α) (hp : (x0 :: xr).Pairwise (· < ·))
+    (hlen : xr.length = hs.length) (hb : ∀ h ∈ hs, b < h) :
+    tracesGrid zero (-1) (histGrid zero (gridOfVertices (histLoop x0 xr hs b)).2.1 hs) (histLoop x0 xr hs b) = true :=
+  histLoop_traces zero x0 b xr hs hp hlen hb
+
+/-- **histogram_matrix** — hence (no run-time hypothesis left) the matrix `strop_decomposition` builds for a histogram
+polygon, from any start vertex and in either orientation, is the histogram's pattern; rectangles are returned iff that
+pattern has a single-trunk decomposition, and their total area is the shoelace area. -/
+theorem histogram_matrix (zero : α) (x0 b : α) (xr hs : List α) (hp : (x0 :: xr).Pairwise (· < ·))
+    (hlen : xr.length = hs.length) (hb : ∀ h ∈ hs, b < h) (k : ℕ) :
+    (gridOfVertices ((histLoop x0 xr hs b).rotate k)).2.2
+      = histGrid zero (gridOfVertices (histLoop x0 xr hs b)).2.1 hs ∧
+    (gridOfVertices ((histLoop x0 xr hs b).reverse.rotate k)).2.2
+      = histGrid zero (gridOfVertices (histLoop x0 xr hs b)).2.1 hs := by
+  have h := matrix_of_traced zero (-1) (Or.inr rfl) _ _ (histLoop_traces zero x0 b xr hs hp hlen hb)
+  refine ⟨by rw [(matrix_start_orientation_indep zero _ k).1, h], ?_⟩
+  rw [(matrix_start_orientation_indep zero _ k).1, (matrix_start_orientation_indep zero _ 0).2.1, h]
+
+end polygon
+
 /-! ### non-vacuity: concrete grids -/
 
 /-- the plus shape: two decompositions (vertical and horizontal trunk). -/
@@ -309,6 +451,27 @@ example : ((instances plus).map fun I =>
     (Stog.createStog (1/8 : ℚ) (1/4) (I.loaded (fun j => (j : ℚ)) (fun i => 3 - (i : ℚ)))).map
       fun p => (p.1, p.2.map (·.loc))) =
     [some (true, [.trunk, .east, .west]), some (true, [.trunk, .north, .south])] := by decide +kernel
+/-- an L-shaped hexagon over `ℚ` walks the boundary of its 2×2 pattern (counter-clockwise `σ = 1`, reversed `σ = −1`),
+does not walk the boundary of the full square, has shoelace sum `2·3`, and is decomposed. -/
+def ell : List (ℚ × ℚ) := [(0, 0), (2, 0), (2, 1), (1, 1), (1, 2), (0, 2)]
+example : tracesGrid (0 : ℚ) 1 [[true, false], [true, true]] ell = true := by decide +kernel
+example : tracesGrid (0 : ℚ) (-1) [[true, false], [true, true]] ell.reverse = true := by decide +kernel
+example : tracesGrid (0 : ℚ) 1 [[true, true], [true, true]] ell = false := by decide +kernel
+example : shoelace2 (0 : ℚ) ell = 6 := by decide +kernel
+example : (gridOfVertices ell).2.2 = [[true, false], [true, true]] :=
+  matrix_of_traced_polygon 0 1 (Or.inl rfl) _ ell (by decide +kernel)
+example : (stropDecomposition (0 : ℚ) ell).isSome = true := by decide +kernel
+/-- the closed form on the hexagon: the point `(1/2, 3/2)` has one vertical edge to its right, `(3/2, 3/2)` none. -/
+example : rectilinear ell = true ∧ rightCount (1/2 : ℚ) (3/2) ell = 1 ∧ rightCount (3/2 : ℚ) (3/2) ell = 0 := by
+  decide +kernel
+/-- the three-column staircase histogram over `ℚ` meets the hypotheses of `histogram_traces`; its pattern and loop. -/
+example : ([0, 1, 2, 3] : List ℚ).Pairwise (· < ·) ∧ ∀ h ∈ ([1, 2, 3] : List ℚ), (0 : ℚ) < h := by
+  refine ⟨by decide +kernel, ?_⟩
+  intro h hh; simp at hh; rcases hh with rfl | rfl | rfl <;> norm_num
+example : histLoop (0 : ℚ) [1, 2, 3] [1, 2, 3] 0 = [(0, 0), (0, 1), (1, 1), (1, 2), (2, 2), (2, 3), (3, 3), (3, 0)] := by
+  decide +kernel
+example : histGrid (0 : ℚ) [3, 2, 1, 0] [1, 2, 3] =
+    [[false, false, true], [false, true, true], [true, true, true]] := by decide +kernel
 /-- the in-place order of the two pruning passes matters on this grid: four row spans survive. -/
 example : (trunksMatrix stairs).length = 4 := by decide +kernel
 
